@@ -98,8 +98,17 @@ type runner struct {
 	idx uint64
 }
 
-func newRunner(rep string) *runner {
+func newRunner(rep string, names []string) *runner {
 	r := &runner{rep: rep, s: state.NewStateStore(nil), idx: 1}
+	// the catalog the intention topology scans: one typical instance per service of the universe
+	for k, n := range names {
+		r.idx++
+		req := &structs.RegisterRequest{Node: "n1", Address: "10.0.0.1",
+			Service: &structs.NodeService{ID: n, Service: n, Port: 8000 + k}}
+		if err := r.s.EnsureRegistration(r.idx, req); err != nil {
+			fatal("register %q: %v", n, err)
+		}
+	}
 	if rep != "legacy" && rep != "legacy-id" {
 		// what the leader does once at startup (LegacyIntentionDeleteAll sets the same key)
 		r.idx++
@@ -251,6 +260,8 @@ func recs(l structs.Intentions) [][]any {
 //	        summary = 4 chars '0'/'1': Allowed, HasPermissions, HasExact, DefaultAllow
 //	        route "src": IntentionMatchOne(source s) then IntentionDecision(target d)   (Intention.Check)
 //	        route "dst": IntentionMatchOne(destination d) then IntentionDecision(target s, peer)
+//	topo : [target, "up"|"down", default, [sorted service names]]      Store.IntentionTopology
+//	cands: the services registered in the catalog (typical instances)
 //	auth : [index into list, "source"|"destination", target, target peer, match, auth]   connect.AuthorizeIntentionTarget
 func (r *runner) observe(names []string, callers [][2]string) M {
 	s := r.s
@@ -340,6 +351,36 @@ func (r *runner) observe(names []string, callers [][2]string) M {
 		}
 	}
 	obs["auth"] = auth
+
+	// Store.IntentionTopology (ServiceTopology / IntentionUpstreams endpoints): the registered services
+	// the target may call ("up") or may be called by ("down"), per default policy.  Result order comes
+	// from a Go map; the names are sorted (a set has no order).
+	topo := [][]any{}
+	for _, t := range names {
+		for _, down := range []bool{false, true} {
+			for _, def := range []bool{false, true} {
+				_, list, err := s.IntentionTopology(nil, structs.NewServiceName(t, nil), down, def, structs.IntentionTargetService)
+				if err != nil {
+					fatal("IntentionTopology: %v", err)
+				}
+				got := make([]string, 0, len(list))
+				for _, sn := range list {
+					got = append(got, sn.Name)
+				}
+				sort.Strings(got)
+				dir, defs := "up", "deny"
+				if down {
+					dir = "down"
+				}
+				if def {
+					defs = "allow"
+				}
+				topo = append(topo, []any{t, dir, defs, got})
+			}
+		}
+	}
+	obs["topo"] = topo
+	obs["cands"] = names
 	return obs
 }
 
@@ -347,7 +388,7 @@ func runGroup(g Group, names []string, callers [][2]string) []byte {
 	var runs []M
 	var seen [][]byte
 	for _, h := range g.Hists {
-		r := newRunner(g.Rep)
+		r := newRunner(g.Rep, names)
 		werr := make([]bool, 0, len(h))
 		for _, o := range h {
 			werr = append(werr, r.apply(o) != nil)
